@@ -29,7 +29,13 @@
 //! optimized a second time with a fresh alias generator, so the `__common_expr_N` columns of the first common-subexpression pass
 //! collide with those of the second: wrong values (`concat($1, s), $1 = s` returns (zz, true) for $1 = 'a', s = 'z') or
 //! `Internal error: WHEN expression did not return a BooleanArray`. Signature (outcome-keyed): the PREPARE route fails and the
-//! PREPARE-optimized plan contains a `__common_expr_` alias. Fix: /verif/fixes/C41-prepare-must-not-store-optimized-plan.diff.
+//! PREPARE-optimized plan contains a `__common_expr_` alias, or PREPARE itself fails the optimizer's schema invariant (`PREPARE q AS SELECT
+//! coalesce(id + CAST(NULL AS BIGINT), $1) FROM t0` → `Failed due to a difference in schemas`: the folded expression is the untyped `$1`). Fix: /verif/fixes/C41-prepare-must-not-store-optimized-plan.diff.
+//! Known finding `param-predicate-above-global-aggregate` (genuine C41 violation, root cause = C01 `filter-below-empty-grouping-set`):
+//! `SELECT k0 FROM (SELECT max(..) AS k0 FROM t0 ..) AS r0 WHERE 'a' BETWEEN '' AND $2` with $2 = ' ' returns the aggregate's one row,
+//! the literal form none: with a literal the column-free conjunct folds to FALSE at planning time, with a placeholder it survives,
+//! PushDownFilter moves it below the global aggregate and the aggregate still emits its row. Signature (outcome-keyed): a route returns
+//! other rows and some SELECT filters by a column-free conjunct holding a parameter above a global aggregate (FROM clause or CTE).
 //! Observation (labels `numeric-type-drift` / `text-type-drift`, every route but PREPARE with declared types): an untyped placeholder makes the planner
 //! pick DOUBLE for `abs($1) + id UNION ..` (0.0 instead of 0) and a string type for `nullif($1, $2) UNION ..` ("0" instead of 0); the values agree
 //! as numbers / as text, so these are reported as labels, not as row differences.
@@ -664,12 +670,15 @@ fn evaluate_uncached(case: &Case, sig: &mut Option<String>) -> CaseResult {
         let mut rejections: Vec<String> = vec![];
         for (route, r) in &obs.routes {
             match r {
-                Err(e) if e.is_rejection() => {
+                // (the nullability-mismatch internal error is the foreign known finding C01 `nullability-mismatch:*`: the route is skipped)
+                Err(e) if e.is_rejection() || (e.class == ErrClass::Internal && e.message.contains("field nullability")) => {
                     labels.push(format!("rejected:{route}"));
                     rejections.push(format!("{route}: {}", truncate(&e.message, 80)));
                 }
                 Err(e) => {
-                    if *route == "prepare" && obs.cse_placeholder {
+                    // (same root cause, same repair: optimizing at PREPARE time with untyped placeholders in place — the simplifier reduces
+                    // `coalesce(id + NULL, $1)` to `$1`, of type Null, and the schema invariant check of the optimizer fails)
+                    if *route == "prepare" && (obs.cse_placeholder || e.message.contains("Failed due to a difference in schemas")) {
                         *sig = Some("prepare-optimized-twice".into());
                     }
                     return CaseResult::violation(format!("route {route} fails with {:?} ({}): {} although the literal query succeeds ({} rows){}", e.class, if e.planning { "planning" } else { "execution" }, e.message, expected.len(), repro())).labels(labels);
@@ -703,7 +712,9 @@ fn evaluate_uncached(case: &Case, sig: &mut Option<String>) -> CaseResult {
                                 return CaseResult::discard("literal form disagrees with the reference while the route agrees (C01's subject)").labels(labels);
                             }
                         }
-                        if *route == "prepare" && obs.cse_placeholder {
+                        if param_predicate_above_global_aggregate(&qpar) {
+                            *sig = Some("param-predicate-above-global-aggregate".into());
+                        } else if *route == "prepare" && obs.cse_placeholder {
                             *sig = Some("prepare-optimized-twice".into());
                         }
                         return CaseResult::violation(format!("route {route} returns other rows than the literal query: {d}{}", repro())).labels(labels);
@@ -724,6 +735,95 @@ fn evaluate_uncached(case: &Case, sig: &mut Option<String>) -> CaseResult {
         labels.dedup();
         CaseResult::pass().nontrivial(nt).labels(labels)
     }
+}
+
+// ----- shape of the known finding `param-predicate-above-global-aggregate`
+
+fn is_global_aggregate(sel: &Select) -> bool {
+    if !matches!(sel.group_by, GroupBy::None) {
+        return false;
+    }
+    let mut agg = sel.having.is_some();
+    for it in &sel.items {
+        crate::exprgen::walk(&it.expr, &mut |x| agg |= matches!(x, Expr::Agg(_)));
+    }
+    agg
+}
+
+fn set_has_global_aggregate(e: &SetExpr) -> bool {
+    match e {
+        SetExpr::Select(s) => is_global_aggregate(s) || s.from.as_ref().is_some_and(tref_has_global_aggregate),
+        SetExpr::SetOp { left, right, .. } => set_has_global_aggregate(left) || set_has_global_aggregate(right),
+        SetExpr::Query(q) => query_has_global_aggregate(q),
+    }
+}
+
+fn query_has_global_aggregate(q: &Query) -> bool {
+    q.with.iter().any(|c| query_has_global_aggregate(&c.q)) || set_has_global_aggregate(&q.body)
+}
+
+fn tref_has_global_aggregate(t: &TableRef) -> bool {
+    match t {
+        TableRef::Join { left, right, .. } => tref_has_global_aggregate(left) || tref_has_global_aggregate(right),
+        TableRef::Derived { q, .. } => query_has_global_aggregate(q),
+        _ => false,
+    }
+}
+
+/// a conjunct that holds a parameter (sentinel literal of the parameterised AST) and no column reference: with a literal it
+/// folds to a constant at planning time, with a placeholder it survives as a column-free filter
+fn column_free_param_conjunct(e: &Expr) -> bool {
+    if let Expr::Bin(refsql::BinOp::And, l, r) = e {
+        return column_free_param_conjunct(l) || column_free_param_conjunct(r);
+    }
+    let (mut cols, mut param) = (false, false);
+    crate::exprgen::walk(e, &mut |x| match x {
+        Expr::Col { .. } | Expr::Exists { .. } | Expr::InSubquery { .. } | Expr::Scalar(_) | Expr::Quantified { .. } => cols = true,
+        Expr::Lit(Value::Str(v)) if v.starts_with('\u{1}') => param = true,
+        _ => {}
+    });
+    param && !cols
+}
+
+fn on_has_param_conjunct(t: &TableRef) -> bool {
+    match t {
+        TableRef::Join { left, right, on, .. } => on.as_ref().is_some_and(column_free_param_conjunct) || on_has_param_conjunct(left) || on_has_param_conjunct(right),
+        _ => false,
+    }
+}
+
+/// some SELECT filters (WHERE / HAVING / QUALIFY / ON) by a column-free conjunct holding a parameter while a global aggregate (no
+/// GROUP BY: exactly one row) sits below it — in its FROM clause (derived tables, joins) or in a CTE of the statement.
+/// Root cause = C01 `filter-below-empty-grouping-set`: PushDownFilter moves the column-free conjunct below the aggregate, which still
+/// emits its one row; the literal form never shows it because the conjunct is folded away before that rule runs.
+fn param_predicate_above_global_aggregate(par: &Query) -> bool {
+    let mut found = false;
+    refsql::visit_queries(par, &mut |q| {
+        let ctes = q.with.iter().any(|c| query_has_global_aggregate(&c.q)) || par.with.iter().any(|c| query_has_global_aggregate(&c.q));
+        fn selects<'a>(e: &'a SetExpr, out: &mut Vec<&'a Select>) {
+            match e {
+                SetExpr::Select(s) => out.push(s),
+                SetExpr::SetOp { left, right, .. } => {
+                    selects(left, out);
+                    selects(right, out);
+                }
+                SetExpr::Query(_) => {}
+            }
+        }
+        let mut sels = vec![];
+        selects(&q.body, &mut sels);
+        for s in sels {
+            let below = ctes || s.from.as_ref().is_some_and(tref_has_global_aggregate);
+            let filtered = s.where_.as_ref().is_some_and(column_free_param_conjunct)
+                || s.having.as_ref().is_some_and(column_free_param_conjunct)
+                || s.qualify.as_ref().is_some_and(column_free_param_conjunct)
+                || s.from.as_ref().is_some_and(on_has_param_conjunct);
+            if below && filtered {
+                found = true;
+            }
+        }
+    });
+    found
 }
 
 fn numeric_normal(rows: &[Vec<Value>]) -> Vec<Vec<Value>> {
